@@ -140,6 +140,17 @@ def metaGen {X : Type} (branch : List (String × String)) (a : DecoArgs X) (old 
   { after := metaField branch a old "after", id := metaField branch a old "id_", isGenerator := metaField branch a old "is_generator",
     kwargs := metaField branch a old "kwargs", name := metaField branch a old "name", produces := metaField branch a old "produces" }
 
+/-! ### the debugging wrappers around the task function -/
+
+/-- What `task.function(**kwargs)` evaluates to when `task.function` is a wrapper with the extracted shape around a body that maps
+the keyword arguments `kw` to `body kw` (`none` = the body raises): the wrapper hands on the arguments or calls the body with
+nothing (`noArgs`), hands back the result or Python's `None` (`pyNone`), and lets an exception through or swallows it. -/
+def wrapCall {K R : Type} (w : Wrap) (noArgs : K) (pyNone : R) (body : K → Option R) (kw : K) : Option R :=
+  if !w.installed then body kw else
+  match body (if w.passesArguments then kw else noArgs) with
+  | some r => some (if w.returnsResult then r else pyNone)
+  | none => if w.reraises then none else some pyNone
+
 /-! ### keyword arguments and the return block -/
 
 /-- the two sources of keyword arguments with their `is_product` flags and parameter guards; on a name clash the
